@@ -557,7 +557,10 @@ def run_locate(store, req, fs, off, mx, version):
     return {'ids': ids, 'reason': None, 'message': None}
 
 
-def case_to_coq(store_name, req, fs, off, mx, obs):
+GATE = {'on': False}
+
+
+def case_to_coq(store_name, req, fs, off, mx, obs, version=(1, 2)):
     ids = None
     if obs['ids'] is not None:
         ids = []
@@ -565,8 +568,8 @@ def case_to_coq(store_name, req, fs, off, mx, obs):
             if str(int(s)) != s:
                 raise RuntimeError('non-canonical identifier in a Locate response: %r' % s)
             ids.append(int(s))
-    return '(mkCase pols_ (mkReq %s %s) %s %s %s %s %s)' % (
-        cp.string(req[0]), cp.option(req[1], lambda g: cp.lst(g, cp.string)), store_name,
+    return '(mkCase %s (%s, %s) pols_ (mkReq %s %s) %s %s %s %s %s)' % (
+        cp.boolean(GATE['on']), cp.z(version[0]), cp.z(version[1]), cp.string(req[0]), cp.option(req[1], lambda g: cp.lst(g, cp.string)), store_name,
         cp.lst(fs, filter_to_coq), cp.option(off, cp.z), cp.option(mx, cp.z), cp.option(ids, lambda l: cp.lst(l, cp.z)))
 
 
@@ -629,6 +632,13 @@ def oracle_expected(store, req, fs):
     return want
 
 
+def version_has(version, f):
+    """policy.is_attribute_supported for the filter's attribute under the request's version."""
+    from kmip.services.server import policy as spol
+    name = filter_to_attr(f).attribute_name.value
+    return spol.AttributePolicy(kdrv.contents.ProtocolVersion(*version)).is_attribute_supported(name)
+
+
 def witness(store, req, fs, off, mx, version, obs, extra=None):
     w = {'plan': store.plan, 'requester': list(req), 'filters': fs, 'offset': off, 'maximum': mx, 'version': list(version),
          'observed': obs, 'store': store.objs}
@@ -649,6 +659,9 @@ def oracle_check(ctx, store, req, fs, off, mx, version, obs, full_obs):
     if obs['ids'] is None:
         if obs['reason'] == 'GENERAL_FAILURE':
             ctx.count('oracle.skipped.general_failure(C13)')
+            return False
+        if GATE['on'] and 'attribute is unsupported' in (obs['message'] or '') and any(not version_has(version, f) for f in fs):
+            ctx.count('oracle.version_gate.refused')
             return False
         if len(dates) > 2 and 'Too many' in (obs['message'] or ''):
             ctx.count('oracle.too_many_dates.refused')
@@ -763,7 +776,7 @@ def run_store(ctx, rng, idx, plan, pols, n_requests, cases, meta, defs, epoch=Fa
                                     'all_visible' if n_full == n_vis else 'proper_nonempty_subset_of_visible'))
             for (off, mx) in slice_menu(rng, n_full):
                 obs = full_obs if (off is None and mx is None) else run_locate(store, req, fs, off, mx, version)
-                cases.append(case_to_coq(sname, req, fs, off, mx, obs))
+                cases.append(case_to_coq(sname, req, fs, off, mx, obs, version))
                 meta.append({'store': idx, 'plan': plan, 'requester': list(req), 'filters': fs, 'offset': off, 'maximum': mx,
                              'version': list(version), 'observed': obs, 'objs': store.objs})
                 nontrivial = obs['ids'] is not None and 0 < len(obs['ids'])
@@ -854,9 +867,12 @@ def structure_check(ctx):
                     break           # the final `else: if value != attribute` fallback
                 branches.append(nm)
                 cur = cur.orelse[0] if len(cur.orelse) == 1 and isinstance(cur.orelse[0], ast.If) else None
+    # optional version gate (fixes/C16-locate-attr-gate): does _process_locate ask is_attribute_supported?
+    GATE['on'] = any(isinstance(n, ast.Call) and isinstance(n.func, ast.Attribute) and n.func.attr == 'is_attribute_supported'
+                     for n in ast.walk(fns['_process_locate']))
     if branches != MODEL_BRANCHES:
         problems.append('attribute branches of _process_locate are %r (model: %r)' % (branches, MODEL_BRANCHES))
-    ctx.cov['structure_check'] = {'fetch_map_entries': len(fetch), 'none_valued': sorted(n for n, v in fetch.items() if v is None),
+    ctx.cov['structure_check'] = {'version_gate_present': GATE['on'], 'fetch_map_entries': len(fetch), 'none_valued': sorted(n for n, v in fetch.items() if v is None),
                                   'locate_branches': branches, 'problems': problems}
     if problems:
         ctx.broken.append({'kind': 'translation', 'name': 'c14.structure_check', 'detail': '; '.join(problems), 'candidates': []})
@@ -921,7 +937,7 @@ def run_grid(ctx, rng, idx, plan, pols, cases, meta, defs):
             n_full = len(full_obs['ids']) if full_obs['ids'] is not None else 2
             for (off, mx) in [(None, None), (1, None), (None, 1), (0, n_full), (1, max(n_full - 1, 0)), (n_full, 1)][:rng.choice([1, 2, 3, 6])]:
                 obs = full_obs if (off is None and mx is None) else run_locate(store, req, fs, off, mx, version)
-                cases.append(case_to_coq(sname, req, fs, off, mx, obs))
+                cases.append(case_to_coq(sname, req, fs, off, mx, obs, version))
                 meta.append({'store': idx, 'plan': plan, 'requester': list(req), 'filters': fs, 'offset': off, 'maximum': mx,
                              'version': list(version), 'observed': obs, 'objs': store.objs})
                 ctx.case_seen((idx, req, fs, off, mx), nontrivial=True)
